@@ -11,6 +11,12 @@ CHECK = {
             "quick": {"scale": 1, "shards": 1, "timeout": 600},
             "thorough": {"scale": 15, "shards": 6, "timeout": 1500},
         },
+        # the last step of delivery, the batching layer in front of the tun device, under injected write faults
+        {
+            "pkg": "overlay/batch", "files": ["overlay/batch/c23_test.go"], "run": "^TestC12_TunWriteFaults",
+            "quick": {"scale": 1, "shards": 1, "timeout": 600},
+            "thorough": {"scale": 10, "shards": 8, "timeout": 1500},
+        },
     ],
     "engine": "E-sched",
     "technique": "rapid-generated start/release schedules over a gated AEAD (dKey) around the real "
@@ -22,7 +28,10 @@ CHECK = {
             "shrunk, wrong key) and a start/release schedule of the goroutines that process them. Non-trivial: at some "
             "moment >=2 packets with the same counter (at least one genuine) were parked between window.Check and "
             "window.Update; distinct by the full case text (packets + schedule). The -race part counts every run of "
-            "2-8 real parallel receivers over 20-400 counters with duplicates and forgeries.",
+            "2-8 real parallel receivers over 20-400 counters with duplicates and forgeries. The tun-batching part replays the "
+            "generated batches of C23 through the real MultiCoalescer with 1-3 injected device write faults per flush and checks "
+            "over that flush and the next one that every committed packet was handed to the device exactly once (non-trivial: a "
+            "fault fired in a batch of >=2 packets).",
     "assumptions": [
         "interleavings are explored at the granularity of the two critical sections of Decrypt/VerifyRelay (the "
         "cipher call is the only preemption point the harness owns); finer interleavings only by the -race part",
